@@ -129,7 +129,9 @@ def run_c09(tier):
     # 4. the generator's own index builder on the current package equals the shipped maps
     acc.add("evaluations")
     try:
-        sys.path.insert(0, "/repo")
+        from ..core import REPO
+
+        sys.path.insert(0, REPO)
         gi = importlib.import_module("codegen.generate_index")
         built = gi.build_index()
         shipped = {n: {v: {t: p for t, p in tm.items()} for v, tm in vm.items()} for n, vm in sindex.schema_name_map.items()}
@@ -142,8 +144,8 @@ def run_c09(tier):
     except Exception as e:  # noqa: BLE001
         run.notes["build_index_note"] = f"codegen.generate_index.build_index not usable here: {e!r}"[:200]
     finally:
-        if "/repo" in sys.path:
-            sys.path.remove("/repo")
+        if REPO in sys.path:
+            sys.path.remove(REPO)
     acc.sample({"valid": ["metadata", 12, "request"], "near_misses": [["metadata", 13, "request"], ["api key 88"], ["Metadata", 0, "request"]]})
     run.merge(acc.result())
     # 5. cold-import races
